@@ -19,6 +19,13 @@ def main():
         sys.exit(1)
     for src in sorted(glob.glob(os.path.join(common.HARN, "hx_*.cpp"))):
         common.build_harness(os.path.basename(src)[:-4])
+    # C17: ThreadSanitizer flavour of the library + harness (separate build tree .work/build-tsan)
+    try:
+        from props import c17
+        if c17.build_tsan(allow_cold=True):
+            c17.build_tsan_harness()
+    except Exception as e:       # the quick tier copes without the TSan flavour
+        print("tsan flavour not built:", e)
     print("setup ok")
 
 if __name__ == "__main__":
